@@ -17,26 +17,25 @@ PROP = Prop(
          "and decodes of the empty string. distinct = distinct op lines.",
     trusted_base=["hand-written Lean model of pkg/sr/serde.go (ConfluentHeader, Serde registry) and of encoding/binary's varint functions, tied by differential runs "
                   "through the public API (harness/cmd/c36 vs Driver/C36.lean)",
-                  "the allocation bound A of make([]int, l) is a model parameter; the harness child runs with RLIMIT_AS=4GiB, l<=2^20 must allocate, l>2^29 must panic/abort, "
-                  "between the two the outputs are not compared",
+                  "the harness child runs with RLIMIT_AS=4GiB; a killed child is outcome `panic`, a 2 s deadline overrun is `hang`",
                   "Lean compiler/runtime for the driver"],
     assumptions=["64-bit platform (Go int = int64)",
                  "schema ids are uint32 values and registered values are non-nil (ids outside uint32 are executed and reported, outside the Spec)",
                  "an id is registered either with or without message indexes (the mixed case is executed and reported, outside the Spec's round-trip clause)",
-                 "a positive maxLength is a bound the caller can allocate (maxLength > 2^20 with a count within it is executed and reported, outside the Spec)",
                  "user encode/decode functions do not panic"],
-    partial="decodeIndex_no_panic_partial: the property's `never panics` clause holds for 0 < maxLength <= A only; it is false for maxLength <= 0 "
-            "(theorem decodeIndex_can_panic; failing inputs get key decodeindex-panic-nonpositive-maxlength)",
+    partial="",
 )
 MANIFEST = {
     "text": "Lean theorems over a model of pkg/sr/serde.go: the header written by ConfluentHeader.AppendEncode is the Confluent wire format (magic 0, big-endian id, "
-            "zig-zag varint index with the single-zero shortcut) and DecodeID/DecodeIndex recover every id < 2^32 and every index path; DecodeID/DecodeIndex answers "
-            "satisfy the wire-format Spec on all byte strings whenever they do not panic; Serde.Encode then Decode/DecodeNew recovers the payload through the decoder "
-            "of the encoding registration for every registration history in which no id is registered both with and without index; malformed headers and "
-            "unregistered ids give errors; Serde decoding never panics. DecodeIndex's `never panics` is proved only for 0 < maxLength <= allocation bound and "
-            "DISPROVED for maxLength <= 0 (make([]int, l) with l read from the input). Model tied to the code by differential runs through the public API.",
-    "note": "Trusted: Lean kernel; the hand-written model (validated differentially, not verified) incl. encoding/binary varints; allocation bound as a parameter; "
-            "64-bit ints; uint32 ids; user codec functions modelled as identity on the payload bytes.",
+            "zig-zag varint index with the single-zero shortcut) and DecodeID/DecodeIndex recover every id < 2^32 and every index path; on all byte strings and every "
+            "maxLength (negative, 0, positive) DecodeID/DecodeIndex never panic and answer as the wire-format Spec says (error exactly for malformed input or a path longer "
+            "than a positive maxLength); Serde.Encode then Decode/DecodeNew recovers the payload through the decoder of the encoding registration for every registration "
+            "history in which no id is registered both with and without index; malformed headers and unregistered ids give errors; Serde decoding never panics. "
+            "Model tied to the code by differential runs through the public API. This check found that DecodeIndex allocated make([]int, l) by the untrusted count "
+            "(panic / out-of-memory abort for maxLength <= 0); repaired in /repo a468db8, after which the no-panic clause is proved at full strength and the old "
+            "witnesses run first as corpus and are Lean regression examples.",
+    "note": "Trusted: Lean kernel; the hand-written model (validated differentially, not verified) incl. encoding/binary varints; "
+            "64-bit ints; uint32 ids; user codec functions modelled as identity on the payload bytes; inputs shorter than 2^45 bytes (8*len(input) allocatable).",
     "technique": "Lean 4 proof (round-trip lemmas by functional induction, registry invariants by induction over registration histories) "
                  "with differential correspondence against pkg/sr",
 }
